@@ -41,7 +41,7 @@ REAL_VS_STUB = {"real": ["torchsde.BrownianInterval/BrownianTree/ReverseBrownian
                 "stub": ["value cache wrapped by FaultyCache (forwarding), one independent plan per replica",
                          "thread scheduler (sim/threads.py): real threads, interleaving decided by the simulator (experiment T)",
                          "torch.randn wrapped as a pre-emption point (experiment T)"]}
-PROBES = ("pairs_compared", "expA", "expB", "expD", "expT", "one_sided_pre_probe_ops", "thread_switches", "preemption_points", "expB_histories_differ", "expB_trees_differ", "probe_offgrid", "probe_with_A",
+PROBES = ("pairs_compared", "expA", "expB", "expD", "expX_fresh_interpreter", "expT", "one_sided_pre_probe_ops", "thread_switches", "preemption_points", "expB_histories_differ", "expB_trees_differ", "probe_offgrid", "probe_with_A",
           "probe_with_U", "entropy_differs_checked", "tree_front", "reverse_front", "tiny_cache")
 STATE_MEASURE = "distinct pairs of final interval-tree shapes of the two replicas"
 
@@ -88,6 +88,11 @@ def gen_case(seed, tier, idx):
         if rc.random() < 0.4 and not cfg["halfway"]:
             decoy["sweep"] = 130  # the decoy is also driven through a long run of small steps (its estimator refines)
         case.update(ops=ops, ops2=[], probes=[], decoy=decoy)
+        # experiment X (round 3): the same replica once more in a *fresh interpreter* under another hash salt
+        # ("same entropy and options => same answers" also across processes / sessions)
+        rx = st.get("expX")
+        if rx.random() < 0.12:
+            case["fresh_interp_hashseed"] = rx.choice([1, 2, 7, 12345, 4294967295])
         return case
     if exp == "A":
         ops = bm.gen_ops(ro, cfg, dom, max(2, ro.choice(sizes)))
@@ -247,7 +252,41 @@ def _run_D(case, log, probes):
         if a != b:
             comp = next(k for k in a if a[k] != b.get(k))
             raise Violation(f"depends_on_other_objects_{comp}", {"op": ops[i], "decoy": case["decoy"]}, i)
+    if case.get("fresh_interp_hashseed") is not None:
+        other = _fresh_interpreter(cfg, ops, case["fresh_interp_hashseed"])
+        if other == "truncated":
+            return b1, e1
+        probes["expX_fresh_interpreter"] = 1
+        for i, (a, b) in enumerate(zip(other, mine)):
+            probes["pairs_compared"] += 1
+            if a != b:
+                comp = next(k for k in a if a[k] != b.get(k))
+                raise Violation(f"depends_on_interpreter_state_{comp}", {"op": ops[i], "hashseed": case["fresh_interp_hashseed"]}, i)
     return b1, e1
+
+
+def _fresh_interpreter(cfg, ops, hashseed):
+    """Digests of every answer of (cfg, ops), evaluated in a new interpreter with PYTHONHASHSEED=hashseed."""
+    import json
+    import os
+    import subprocess
+    import sys
+    from ..core import HarnessError
+    here = os.path.dirname(os.path.dirname(os.path.dirname(os.path.abspath(__file__))))
+    env = dict(os.environ, PYTHONHASHSEED=str(hashseed), OMP_NUM_THREADS="1", MKL_NUM_THREADS="1")
+    plain = [{k: v for k, v in o.items() if k not in ("faults", "faults2")} for o in ops]
+    try:
+        r = subprocess.run([sys.executable, "-W", "ignore", os.path.join(here, "sim", "altproc.py")], cwd=here, env=env,
+                           input=json.dumps({"cfg": cfg, "ops": plain}), capture_output=True, text=True, timeout=600)
+    except subprocess.TimeoutExpired:
+        raise HarnessError("experiment X: fresh interpreter timed out")
+    lines = [ln for ln in r.stdout.splitlines() if ln.strip()]
+    if r.returncode != 0 or not lines:
+        raise HarnessError("experiment X: fresh interpreter failed: " + (r.stderr or "")[-300:])
+    res = json.loads(lines[-1])
+    if isinstance(res, str) and res != "truncated":
+        raise HarnessError("experiment X child: " + res)
+    return res
 
 
 def _run_T(case, log, probes):
